@@ -53,3 +53,98 @@ modelled! {
     #[kani::unwind(2)]
     fn c06_a_overlap3() { overlap_n::<3>() }
 }
+
+// ---------------------------------------------------------------- C06-b bank windows
+
+fn any_opt40() -> Option<usize> {
+    if kani::any() {
+        let s: usize = kani::any();
+        kani::assume(s < (1usize << 40));
+        Some(s)
+    } else {
+        None
+    }
+}
+fn decls_with_banks(n: usize) -> asm::ItemDecls {
+    let mut decls = empty_decls();
+    let mut i = 0;
+    while i < n {
+        decls.bankdefs.verif_push_decl("b", 0, util::SymbolContext::new_global());
+        i += 1;
+    }
+    decls
+}
+/// windows [o, o+s) (s = None: unbounded). strict: share a bit; weak: an empty window counts as a point.
+fn windows(o1: usize, s1: Option<usize>, o2: usize, s2: Option<usize>) -> (bool, bool) {
+    let e1 = s1.map(|s| o1 + s);
+    let e2 = s2.map(|s| o2 + s);
+    let lt = |a: usize, e: Option<usize>| match e { Some(e) => a < e, None => true };
+    let nonempty = |s: Option<usize>| s != Some(0);
+    let strict = nonempty(s1) && nonempty(s2) && lt(o2, e1) && lt(o1, e2);
+    let e1w = s1.map(|s| o1 + if s == 0 { 1 } else { s });
+    let e2w = s2.map(|s| o2 + if s == 0 { 1 } else { s });
+    let weak = lt(o2, e1w) && lt(o1, e2w);
+    (strict, weak)
+}
+
+modelled! {
+    #[kani::unwind(5)]
+    fn c06_b_bank_windows2() {
+        reset_report_model();
+        let mut report = diagn::Report::new();
+        let decls = decls_with_banks(3);
+        let mut defs = asm::defs::init();
+        let (s0, o0) = (any_opt40(), any_opt40());
+        let (s1, o1) = (any_opt40(), any_opt40());
+        let (s2, o2) = (any_opt40(), any_opt40());
+        defs.bankdefs.define(util::ItemRef::new(0), bank(0, 8, 0, s0, o0, false));
+        defs.bankdefs.define(util::ItemRef::new(1), bank(1, 8, 0, s1, o1, false));
+        defs.bankdefs.define(util::ItemRef::new(2), bank(2, 8, 0, s2, o2, false));
+        let r = asm::output::check_bank_overlap(&mut report, &decls, &defs);
+        let (strict, weak) = match (o1, o2) {
+            (Some(a), Some(b)) => windows(a, s1, b, s2),
+            _ => (false, false),
+        };
+        assert!(!(r.is_ok() && strict), "banks whose output windows share a bit were accepted");
+        assert!(r.is_ok() || weak, "banks with disjoint output windows were rejected");
+        assert!(r.is_ok() == (msgs(&report) == 0), "Err without diagnostic or diagnostic without Err");
+        kani::cover!(r.is_err() && s1.is_some() && s2.is_some(), "two bounded windows overlap");
+        kani::cover!(r.is_ok() && o1.is_some() && o2.is_some() && s1.is_some(), "two output banks accepted");
+        kani::cover!(r.is_ok() && o1.is_none(), "bank without output ignored");
+        std::mem::forget(decls); std::mem::forget(defs); std::mem::forget(report);
+    }
+}
+
+// ---------------------------------------------------------------- C06-d fill and zero gaps
+
+modelled_bits! {
+    #[kani::unwind(4)]
+    fn c06_d_fill() {
+        reset_report_model();
+        reset_bitstore();
+        let mut report = diagn::Report::new();
+        let decls = decls_with_banks(3);
+        let mut defs = asm::defs::init();
+        let ast = asm::AstTopLevel { nodes: Vec::new() };
+        defs.bankdefs.define(util::ItemRef::new(0), bank(0, 8, 0, None, Some(0), false));
+        let (s1, o1): (usize, usize) = (kani::any(), kani::any());
+        let (s2, o2): (usize, usize) = (kani::any(), kani::any());
+        kani::assume(s1 <= 40 && o1 <= 40 && s2 <= 40 && o2 <= 40);
+        let (f1, f2): (bool, bool) = (kani::any(), kani::any());
+        defs.bankdefs.define(util::ItemRef::new(1), bank(1, 1, 0, Some(s1), Some(o1), f1));
+        defs.bankdefs.define(util::ItemRef::new(2), bank(2, 8, 0, Some(s2), Some(o2), f2));
+        let out = asm::output::build_output(&mut report, &ast, &decls, &defs).unwrap();
+        let e1 = if f1 && s1 > 0 { o1 + s1 } else { 0 };
+        let e2 = if f2 && s2 > 0 { o2 + s2 } else { 0 };
+        let want = if e1 > e2 { e1 } else { e2 };
+        assert!(out.len() == want, "output does not extend exactly to the end of the last filled bank");
+        let i: usize = kani::any();
+        kani::assume(i < 96);
+        assert!(!unsafe { DST[i] }, "fill wrote a non-zero bit");
+        kani::cover!(f1 && f2 && e1 > e2 && e2 > 0, "two filled banks, first ends last");
+        kani::cover!(f1 && s1 == 1, "one-bit filled bank");
+        kani::cover!(f2 && s2 == 0, "filled bank of size 0");
+        kani::cover!(!f1 && !f2, "no fill");
+        std::mem::forget(decls); std::mem::forget(defs); std::mem::forget(report); std::mem::forget(out); std::mem::forget(ast);
+    }
+}
